@@ -565,6 +565,51 @@ fn pairwise(cfg: &Config, pool: &[&'static str], calls: &mut u64, rep: &mut Repo
     None
 }
 
+/// One text cut into `arity` consecutive pieces at every possible position (pieces of 0..=33 bytes, so every piece
+/// length and every boundary offset up to four machine words occurs): all these tuples are different and must be
+/// different children of one vector.
+const SHIFT_TEXT: &str = "frontendus-east-1a-zone1-rack0042";
+
+fn boundary_shift(cfg: &Config, calls: &mut u64) -> Option<(String, String)> {
+    let arity = cfg.names.len();
+    ARITY.with(|a| a.set(arity));
+    let n = SHIFT_TEXT.len();
+    let mut tuples: Vec<Vec<&'static str>> = vec![];
+    match arity {
+        1 => return None,
+        2 => {
+            for i in 0..=n {
+                tuples.push(vec![&SHIFT_TEXT[..i], &SHIFT_TEXT[i..]]);
+            }
+        }
+        _ => {
+            for i in 0..=n {
+                for j in i..=n {
+                    tuples.push(vec![&SHIFT_TEXT[..i], &SHIFT_TEXT[i..j], &SHIFT_TEXT[j..]]);
+                }
+            }
+        }
+    }
+    let mut v = match V::new(cfg) {
+        Ok(v) => v,
+        Err(e) => return Some(("constructor".into(), e)),
+    };
+    let perms = combi::permutations(arity);
+    let mut model: Model = BTreeMap::new();
+    for (k, t) in tuples.iter().enumerate() {
+        *calls += 1;
+        let r = if k % 2 == 0 || v.is_local() { v.bump_list(t, 1) } else { v.bump_map(&mk_map(&cfg.names, t, &perms[k % perms.len()]), 1) };
+        match r {
+            Ok(before) if before == 0.0 => {}
+            Ok(before) => return Some(("shifted-boundary:stale-child".into(), format!("tuple {:?}: first request found a child holding {}", t, before))),
+            Err(e) => return Some(("valid-request-refused".into(), format!("tuple {:?}: {}", t, e))),
+        }
+        model.insert(t.iter().map(|s| s.to_string()).collect(), (1.0, 1));
+    }
+    v.flush();
+    compare(cfg, &v, &model, "one text cut at every position").map(|(c, d)| (format!("shifted-boundary:{}", c), d))
+}
+
 fn configs(arity: usize) -> Vec<(Vec<&'static str>, Vec<(&'static str, &'static str)>)> {
     match arity {
         1 => vec![(vec!["l"], vec![]), (vec!["l"], vec![("k", "c")])],
@@ -600,6 +645,20 @@ fn main() {
         let arity = doc["config"]["names"].as_array().unwrap().len();
         let (names, consts) = configs(arity).into_iter().find(|(n, _)| json!(n) == doc["config"]["names"]).unwrap();
         let cfg = Config { kind, names, consts };
+        if doc["scenario"] == "boundary-shift" {
+            let mut calls = 0;
+            let r1 = catch(|| boundary_shift(&cfg, &mut calls));
+            let r2 = catch(|| boundary_shift(&cfg, &mut calls));
+            println!("replay {:?} scenario=boundary-shift -> {:?}", cfg, r1);
+            if format!("{:?}", r1) != format!("{:?}", r2) {
+                std::process::exit(2);
+            }
+            if matches!(r1, Ok(None)) {
+                std::process::exit(0);
+            }
+            println!("VIOLATION property=C05 replay={}", p);
+            std::process::exit(1);
+        }
         let pair = doc["scenario"] == "pairwise";
         let pool: Vec<&'static str> = doc["pool"].as_array().unwrap().iter().map(|s| *POOL.iter().find(|p| **p == s.as_str().unwrap()).unwrap()).collect();
         let mut calls = 0;
@@ -619,7 +678,7 @@ fn main() {
         std::process::exit(1);
     }
     rep.rule = format!(
-        "for each of 8 vector kinds x label-name configurations (arity 1..3, sorted and unsorted declaration order, with/without constant labels): (1) all tuples of POOL^arity requested in one vector by list form and by map form (every key insertion order), distinct increments, wrong-arity / wrong-key requests, removal by both forms; (2) every ordered pair of tuples in a fresh vector; (3) local kinds: child removed through the shared vector, local removal fails, tuple requested again. POOL={:?} (quick uses the first 11 values for arity 3 and for arity-2 pairs; pairs of arity 3 use the first 6). distinct = distinct (kind, config, scenario, children) outcome classes",
+        "for each of 8 vector kinds x label-name configurations (arity 1..3, sorted and unsorted declaration order, with/without constant labels): (1) all tuples of POOL^arity requested in one vector by list form and by map form (every key insertion order), distinct increments, wrong-arity / wrong-key requests, removal by both forms; (2) every ordered pair of tuples in a fresh vector; (3) local kinds: child removed through the shared vector, local removal fails, tuple requested again; (4) one 33-byte text cut into arity consecutive pieces at every position, all in one vector. POOL={:?} (quick uses the first 11 values for arity 3 and for arity-2 pairs; pairs of arity 3 use the first 6). distinct = distinct (kind, config, scenario, children) outcome classes",
         POOL
     );
     rep.bounds = json!({"pool_size": POOL.len(), "arities": [1,2,3], "kinds": KINDS.iter().map(|k| format!("{:?}", k)).collect::<Vec<_>>()});
@@ -637,6 +696,19 @@ fn main() {
                         Ok(None) => {}
                         Ok(Some((class, detail))) => {
                             rep.violation(format!("{}:{:?}:arity{}", class, kind, arity), format!("{:?} names {:?}: {}", kind, names, detail), json!({"engine":"enum","config": cfg_json(&cfg), "scenario": "local-reattach", "pool": pool, "detail": detail}));
+                        }
+                        Err(p) => rep.violation(format!("panic:{:?}", kind), p.clone(), json!({"detail": p})),
+                    }
+                }
+                {
+                    let mut calls = 0u64;
+                    rep.evaluations += 1;
+                    let r = watchdog::case(|| format!("boundary-shift {:?}", cfg), || catch(|| boundary_shift(&cfg, &mut calls)));
+                    rep.transitions += calls;
+                    match r {
+                        Ok(None) => {}
+                        Ok(Some((class, detail))) => {
+                            rep.violation(format!("{}:{:?}:arity{}", class, kind, arity), format!("{:?} names {:?}: {}", kind, names, detail), json!({"engine":"enum","config": cfg_json(&cfg), "scenario": "boundary-shift", "pool": [], "detail": detail}));
                         }
                         Err(p) => rep.violation(format!("panic:{:?}", kind), p.clone(), json!({"detail": p})),
                     }
